@@ -808,6 +808,11 @@ pub fn replay(report: &Report, case: &Value) {
     }
 }
 
+fn machinery_failure_headless_replay() {
+    // headless cases are process runs: ./vcheck C20 --tier quick re-runs all of them in seconds
+    println!("replay: a headless case is re-run by the quick tier itself (every case is one process run of `rip run`)");
+}
+
 pub fn run(opts: Opts) -> i32 {
     let report = Report::new("C20", "model_checking", opts.clone());
     report.set_rule(
@@ -823,6 +828,17 @@ pub fn run(opts: Opts) -> i32 {
     report.assume("memory bound judged on the configured bounds only: frames, output_text, previews (8192); maps keyed by id are not bounded by configuration");
     if let Some(path) = &opts.replay {
         let case = crate::common::load_replay_case(path);
+        if case["harness"] == "c20.overlays" {
+            // re-run the (sub-second) overlay sweep, judging only the saved case
+            std::panic::set_hook(Box::new(|_| {}));
+            *report.replay_case_slot() = Some(crate::common::normalise_case(&case));
+            overlay_sweep(&report, &[(20, 8), (80, 24), (200, 60)]);
+            let _ = std::panic::take_hook();
+            return report.finish();
+        }
+        if case["harness"] == "c20.headless" {
+            machinery_failure_headless_replay();
+        }
         replay(&report, &case);
         return report.finish();
     }
